@@ -417,3 +417,40 @@ def find_min_chain(W, f):
         if t.callee.indirect is None and last_seg(t.callee.best) == 'min' and len(t.args) == 1:
             out.append(t)
     return out
+
+
+def stale_between(W, f, read_block, use_block, ap_string, E):
+    """a call or store on some path read_block -> use_block that may write `ap_string` (generic access path rooted at self);
+    returns a description of the first one found, or None"""
+    cfg = cfg_of(f)
+    after = cfg.reachable_after(read_block)
+    # blocks that can reach the use
+    can = {use_block}
+    st = [use_block]
+    while st:
+        x = st.pop()
+        for p2 in cfg.pred[x]:
+            if p2 not in can:
+                can.add(p2)
+                st.append(p2)
+    between = (after & can) - {use_block}
+    cx = W.ctx(f)
+    for w in W.writes():
+        if w['fn'] is not f or w['bb'] not in between:
+            continue
+        if w['kind'] == 'store':
+            if w['ap'].s(f, generic=True) == ap_string:
+                return 'store at line %d' % w['line']
+            continue
+        t = w['site']
+        for g in W.cg.targets(t.callee):
+            from .world import _subst_root
+            mapping = {}
+            for i, a in enumerate(t.args):
+                nm = 'self' if g.local_name(i + 1) == 'self' else 'arg%d' % (i + 1)
+                mapping[nm] = cx.ap_carry(a.place).s(f, generic=True) if a.is_place() else None
+            for e in E.of(g):
+                r = _subst_root(e, mapping)
+                if r == ap_string:
+                    return short(t.callee.best)
+    return None
